@@ -276,7 +276,7 @@ def main():
         sys.exit(3)
     timeout_ms = int(os.environ.get('PYVC_TIMEOUT_MS') or 0) or (20000 if a.tier == "quick" else 90000)
     ncpu = int(os.environ.get('PYVC_PROCS') or 0) or os.cpu_count() or 4
-    outer = max(1, min(len(tops), 5, max(1, ncpu // 2)))
+    outer = max(1, min(len(tops), 8, max(1, ncpu // 2)))
     inner = max(2, (ncpu - 1) // outer)
     if all((getattr(t, 'extra', {}) or {}).get('procs') == 1 for t in tops):
         # a family of tiny lemmas that discharge their obligations in-process: all the parallelism goes to the outer pool
